@@ -67,6 +67,11 @@ CLAIMS = {
         text='Static, for every valuation of (rank 1?, normalize_grads, beta2 == 1, weight decay, beta1 == 1): accumulators are combined through one-hot reshapes by elementwise min (or max) into a pointwise bound, the statistic is beta2*bound + w*g^2 with w = 1-beta2 (1 when beta2 == 1), each new accumulator is a plain jnp.max of that statistic over exactly the other axes (rank 1: the statistic itself), the step preconditions the same (normalised) gradient by 1/sqrt(statistic + eps) before momentum, weight decay and -lr, beta2 == 1 gives monotone accumulators, accumulators are float32 zeros per axis. These discharge the induction step of the cover invariant and the AdaGrad/RMSProp step bound.',
         note='Trusted: beta2 in (0,1]; plain jnp.max is the true maximum. Undecided: exact equality with AdaGrad for rank 1 under int8 momentum quantisation (numerical).',
         design='4/C12'),
+    'C13': dict(
+        technique='LEN abstract domain (symbolic list lengths) on the value graph, pad-count normal form at every site, index-map rule for batch/unbatch, collective-axis and replica-index agreement, squeeze lint',
+        text='Static: the pad count is (-N) mod D at all six sites with the right D and the N == 0 special case agrees across sharded init/declaration/update; every list handed to batch (statistics, exponents, paddings, quantized parts, previous preconditioners incl. the _maybe path) has symbolic length N + to_pad with pads appended last and pad entries (identity, exponent 1, padding start 0); batch chunks with slice width == stride == n/D and unbatch re-emits row-major, results are zipped against the N-long per-statistic lists (dropping exactly the pads); axis_index/all_gather/psum name one axis, every batched operand is indexed by the same replica (0 on one device), roots are all_gather-ed then unbatched; no axis-less squeeze. Necessary conditions of C13.',
+        note='Trusted: the caller builds the per-statistic lists in one loop (checked syntactically); numpy semantics of stack/split. Undecided: bitwise batch-size invariance of linear algebra; real-mesh execution.',
+        design='4/C13'),
 }
 
 NOT_BUILT_REASON = 'checker for this property not built yet (build phase in progress; see DESIGN.md section 9)'
